@@ -38,6 +38,18 @@ def init(b, mem):
     memory_id = mem
 
 
+if os.environ.get('AEGEAN_VERIF') == '1':
+    class _VerifFault(Exception):
+        """
+        Verification only (AEGEAN_VERIF=1): an exception whose constructor takes
+        two arguments, so that it cannot be rebuilt from its pickled args in
+        another process.
+        """
+
+        def __init__(self, where, reason):
+            super().__init__('{0}: {1}'.format(where, reason))
+
+
 def _verif_point(name, region):
     """
     Verification hook point. A no-op unless the environment variable
@@ -46,6 +58,7 @@ def _verif_point(name, region):
       named by AEGEAN_VERIF_BANE_LOG (single O_APPEND write per event)
     - sleep and/or fail according to the json plan in AEGEAN_VERIF_BANE_PLAN:
       {"delay": {"<name>:<row>": seconds}, "fault": {"<name>:<row>": "raise"|"exit"}}
+      (further fault kinds: "raise_custom", "raise_os")
     """
     if os.environ.get('AEGEAN_VERIF') != '1':
         return
@@ -72,6 +85,10 @@ def _verif_point(name, region):
         fault = plan.get('fault', {}).get(key)
         if fault == 'raise':
             raise RuntimeError('AEGEAN_VERIF injected fault at ' + key)
+        if fault == 'raise_custom':
+            raise _VerifFault(key, 'AEGEAN_VERIF injected fault')
+        if fault == 'raise_os':
+            raise OSError(5, 'AEGEAN_VERIF injected fault at ' + key)
         if fault == 'exit':
             os._exit(17)
 
